@@ -44,9 +44,12 @@ class layout {
 
     _mpi_allgather(m_comm_rank, m_local_ranks, m_local_size, comm_local);
 
-    // node ranks
+    // node ranks: order the nodes by their lowest rank, so that every local id
+    // numbers the nodes the same way (ordering by the own rank gives the ranks
+    // of one node different node ids unless the placement is monotone)
     MPI_Comm comm_node;
-    ASSERT_MPI(MPI_Comm_split(comm, m_local_id, m_comm_rank, &comm_node));
+    ASSERT_MPI(
+        MPI_Comm_split(comm, m_local_id, m_local_ranks[0], &comm_node));
     ASSERT_MPI(MPI_Comm_size(comm_node, &m_node_size));
     ASSERT_MPI(MPI_Comm_rank(comm_node, &m_node_id));
 
